@@ -64,6 +64,9 @@ const pairName = "zverif.c12.Pair (hand-written)"
 
 // newMessage / descOf extend mcase.New / mcase.Desc with the hand-written type.
 func newMessage(name string, dyn bool) protoreflect.Message {
+	if md, ok := earlyDescs[name]; ok {
+		return dynamicpb.NewMessage(md)
+	}
 	if name != pairName {
 		return mcase.New(name, dyn)
 	}
@@ -75,6 +78,9 @@ func newMessage(name string, dyn bool) protoreflect.Message {
 }
 
 func descOf(name string) protoreflect.MessageDescriptor {
+	if md, ok := earlyDescs[name]; ok {
+		return md
+	}
 	if name != pairName {
 		return mcase.Desc(name)
 	}
